@@ -285,7 +285,7 @@ fn gen_replies(rng: &mut StdRng, n: usize) -> Vec<String> {
 
 const INSPECTIONS: &[&str] = &[
     "PRINT A;B;C", "PRINT S$;T$", "PRINT P(1);Q(1,1)", "PRINT 1/0", "PRINT \"x\"+1", "LIST", "PRINT FNA(\"x\")",
-    "PRINT FNB(1/0)", "PRINT R$(99)", "PRINT I;J", "?", "PRINT (", "REM just looking",
+    "PRINT FNB(1/0)", "PRINT R$(99)", "PRINT I;J", "?", "PRINT (", "REM just looking", "NEXT Q9", "GOTO", "X9 = ",
 ];
 
 /// C07: (program, schedule of breaks + inspections) vs (program, no breaks).
@@ -441,8 +441,11 @@ const HISTORY: &[&str] = &[
 pub fn record_runfresh(seed: u64, n: usize, out: &str, rep: &mut Report) {
     let mut rec = Rec::new(out);
     for i in 0..n as u64 {
-        let lines = gen_program(seed, i, true, true, 0.04);
+        let mut lines = gen_program(seed, i, true, true, 0.04);
         let mut rng = StdRng::seed_from_u64(seed ^ (i << 17) ^ 0xC10);
+        if rng.gen_bool(0.12) {
+            lines.clear();          // RUN on an empty program must reset just the same
+        }
         let replies = gen_replies(&mut rng, 40);
         let (tr, wn) = (rng.gen_bool(0.3), rng.gen_bool(0.3));
         // interpreter X: program, then a history
